@@ -104,6 +104,16 @@ Theorem C07_full_range_is_all_bytes : forall lz4c lz4d choose,
   get_bytes_by_chunk_range lz4d (built_info lz4c choose cashash chunks hashes scheme) (xorb_serialize lz4c choose cashash chunks hashes scheme) 0 (N.of_nat (length chunks)) =
   get_all_bytes lz4d (built_info lz4c choose cashash chunks hashes scheme) (xorb_serialize lz4c choose cashash chunks hashes scheme).
 Proof. exact xorb_full_range_is_all_bytes. Qed.
+(* the length the footer reports for a chunk range is the length of the bytes the range read returns *)
+Theorem C07_range_length_is_length_of_range : forall lz4c lz4d choose,
+  (forall x, lz4d (lz4c x) = Some x) -> (forall x, choose x <= MAX_SCHEME) ->
+  forall cashash chunks hashes scheme a b,
+  xorb_input_ok cashash chunks hashes -> fold_right N.add 0 (phys_lens lz4c choose chunks scheme) < 4294967296 ->
+  bytes_eqb cashash zero_hash = false -> scheme_valid scheme -> a < b -> b <= N.of_nat (length chunks) ->
+  exists d,
+    get_bytes_by_chunk_range lz4d (built_info lz4c choose cashash chunks hashes scheme) (xorb_serialize lz4c choose cashash chunks hashes scheme) a b = ROk d /\
+    uncompressed_range_length (built_info lz4c choose cashash chunks hashes scheme) a b = ROk (N.of_nat (length d)).
+Proof. exact xorb_range_length_is_length_of_range. Qed.
 Example C07_range_nonvacuous :
   let lz4c := fun x : list N => x in let lz4d := fun x : list N => Some x in let choose := fun _ : list N => 2 in
   get_bytes_by_chunk_range lz4d (built_info lz4c choose (repeat 5 32%nat) [[1; 2; 3]; [9]; [7; 7]] [repeat 1 32%nat; repeat 2 32%nat; repeat 3 32%nat] None)
@@ -130,3 +140,4 @@ Print Assumptions C07_adjacent_ranges_concat.
 Print Assumptions C07_bad_range_refused.
 Print Assumptions C07_bad_range_length_refused.
 Print Assumptions C07_full_range_is_all_bytes.
+Print Assumptions C07_range_length_is_length_of_range.
